@@ -137,7 +137,7 @@ fn search_rebasing(cx: &mut Ctx) {
                     let mut ids = vec![];
                     sm::pat_idents(il.pat, &mut ids);
                     let p = ids.first().cloned().unwrap_or_default();
-                    let body = sm::tsc(il.then_block);
+                    let body = sm::tsc(&*il.then_block);
                     if body.contains(&format!("{}+{}", a, p)) || body.contains(&format!("{}+{}", p, a)) {
                         cx.ok(rule, &format!("{}: {} searches the tail from `{}` and re-bases the position by it", fname, callee, a));
                     } else {
@@ -246,7 +246,10 @@ fn check_orders(cx: &mut Ctx, model: &AstModel, oref: &crate::rules::grammar_rul
         // ExprJoinedStr has a bespoke override (shared location for the pieces); checked separately
         if name == "ExprJoinedStr" && is_override {
             let t = sm::tsx(block);
-            if t == "{letstart=self.locate(node.range.start());letend=self.locate_only(node.range.end());letlocation=SourceRange::new(start,end);linear_locate_expr_joined_str(self,node,location)}" {
+            // start located (moves the cursor), end only looked ahead, one shared location handed to the piece helper
+            let re = regex::Regex::new(r"^\{let(\w+)=self\.locate\(node\.range\.start\(\)\);let(\w+)=self\.locate_only\(node\.range\.end\(\)\);let(\w+)=SourceRange::new\((\w+),(\w+)\);(\w+)\(self,node,(\w+)\)\}$").unwrap();
+            let shape_ok = re.captures(&t.text).map_or(false, |c| c[1] == c[4] && c[2] == c[5] && c[3] == c[7] && loc.free_fns(&c[6]).len() == 1);
+            if shape_ok {
                 cx.ok("C13.O3", "fold_expr_joined_str: start located, end looked ahead, pieces share the location");
             } else {
                 cx.fail("C13.O3", "C13.O3/ExprJoinedStr", &where_, "fold_expr_joined_str is not locate(start) + locate_only(end) + linear_locate_expr_joined_str");
